@@ -67,7 +67,7 @@ const prelude = `p() { printf '%s' "$#"; printf '<%s>' "$@"; }`
 
 // ---- generator -------------------------------------------------------------
 
-var ifsChoices = []string{" \t\n", " ", "\n", "\t ", ":", ": ", " :", ":,", ", :", "é", "é ", "x", ":é\t", "€", "€: ", "ab", "-", " -\n", "/", "aé€ "}
+var ifsChoices = []string{" \t\n", " ", "\n", "\t ", ":", ": ", " :", ":,", ", :", "é", "é ", "x", ":é\t", "€", "€: ", "ab", "-", " -\n", "/", "aé€ ", "1", "0 ", "-2"}
 
 func genIFS(r *rand.Rand) (set bool, ifs string) {
 	switch r.IntN(12) {
@@ -199,8 +199,20 @@ func (g *gen) word() {
 			s, p = g.sgl()
 		case c < 8:
 			s, p = g.dbl()
-		case c < 15:
+		case c < 14:
 			s, p = g.exp()
+		case c < 15: // arithmetic expansion: split like any unquoted expansion
+			n := r.IntN(3000)
+			if r.IntN(3) == 0 {
+				n = r.IntN(30)
+			}
+			if r.IntN(4) == 0 {
+				v := fmt.Sprintf("-%d", n+1)
+				s, p = fmt.Sprintf("$((0-%d))", n+1), part{K: "exp", V: hxsplit.Runes(v), ck: "split", cs: v}
+			} else {
+				v := fmt.Sprintf("%d", n)
+				s, p = fmt.Sprintf("$((%d))", n), part{K: "exp", V: hxsplit.Runes(v), ck: "split", cs: v}
+			}
 		case c < 16:
 			s, p = hx.Pick(r, []string{`"$@"`, `"${@}"`}), part{K: "at", Vs: hxsplit.RunesList(k.params), ck: "at", celem: k.params}
 		case c < 17:
@@ -593,6 +605,9 @@ var pinned = []struct {
 	{true, "éx", nil, []string{"aébxéc"}, "$v0"},
 	{true, ":", nil, []string{"a:b"}, "a:b$v0\"$v0\"'a:b'"},
 	{true, ":", nil, []string{"a::b"}, "$(printf '%s' \"$v0\")"},
+	{true, "1", nil, nil, "$((212))"},
+	{true, "1", nil, nil, "x$((11))y\"$((212))\""},
+	{true, "-", nil, nil, "$((0-5))"},
 	{true, " \t\n", []string{"", ""}, nil, "a\"$@\"b"},
 	{true, " \t\n", nil, nil, "\"$@\""},
 	{true, " \t\n", nil, nil, "\"$@\"\"\""},
